@@ -595,6 +595,8 @@ def verify_fuc(key: str, cfg: dict) -> FucResult:
                 raise Refuse(f"more than {con.max_paths} paths in {key}")
             for ob in st.obligations:
                 ob.path = st.path_id
+                if cfg.get("only_obligations") is not None and ob.name not in cfg["only_obligations"]:
+                    continue  # refutation search: only the obligations that failed in the proof run are looked at
                 if time.time() - t0 > budget * 1.5:
                     ob.status, ob.detail, ob.backend = "unknown", "function time budget exhausted", "-"
                 else:
